@@ -237,8 +237,9 @@ pub fn reply(deps: DepsMut, env: Env, msg: Reply) -> StdResult<Response> {
                 Ok(response)
             }
             PARTIAL_CLOSE_POSITION_REPLY_ID => {
-                let (input, output) = parse_swap(response).unwrap();
-                let response = partial_close_position_reply(deps, env, input, output)?;
+                // the partial close is a swap_output: base asset in, quote asset out
+                let (base, quote) = parse_swap(response).unwrap();
+                let response = partial_close_position_reply(deps, env, quote, base)?;
                 Ok(response)
             }
             LIQUIDATION_REPLY_ID => {
